@@ -54,6 +54,15 @@ type scenario struct {
 	Order []int  `json:"order"` // connection index per injected frame
 	Park  bool   `json:"park"`  // park the handler at the yield point while pushed data arrives
 	Kind  string `json:"kind"`
+	// PeerIPs, when set, replaces the default peer addresses (index = conn.Peer)
+	PeerIPs []string `json:"peer_ips,omitempty"`
+}
+
+func (sc scenario) peer(i int) net.IP {
+	if i < len(sc.PeerIPs) {
+		return net.ParseIP(sc.PeerIPs[i]).To4()
+	}
+	return peerIP(i)
 }
 
 func (c conn) nframes() int {
@@ -173,6 +182,30 @@ func scenarios(tier string, seed int64) []scenario {
 		}
 		out = append(out, sc)
 	}
+	// IPv4 identification values at the carry boundaries of the header checksum, per peer address: the child
+	// learns the listener's header constants from the SYN-ACK and sets the identification (verif hook) before
+	// each later step
+	addrs := []string{"192.168.1.77", "10.0.0.2", "172.16.254.254", "203.0.113.9", "100.64.255.1", "223.255.255.254", "1.0.0.1", "198.51.100.200"}
+	na := 8
+	if tier == "thorough" {
+		na = 120
+	}
+	for i := 0; i < na; i++ {
+		r := core.NewRng(seed, "C14/ipid", i)
+		ip := fmt.Sprintf("%d.%d.%d.%d", r.Range(1, 223), r.Intn(256), r.Intn(256), r.Range(1, 254))
+		if i < len(addrs) {
+			ip = addrs[i]
+		}
+		if strings.HasPrefix(ip, "127.") {
+			ip = "128" + ip[3:]
+		}
+		sc := scenario{Kind: "ipid-boundary", PeerIPs: []string{ip}}
+		for j := 0; j < 10; j++ {
+			sc.Conns = append(sc.Conns, conn{Peer: 0, Sport: 20000 + j, Dport: 8080, ISN: uint32(r.U64()), Segs: []int{r.Range(1, 40)}, Psh: 0, Fin: true})
+			sc.Order = append(sc.Order, j, j, j, j)
+		}
+		out = append(out, sc)
+	}
 	// parked-handler scenarios (each costs the implementation's 60 s read timeout when the wake-up is lost)
 	np := 6
 	if tier == "thorough" {
@@ -235,6 +268,7 @@ type scnObs struct {
 	Parked  int64      `json:"parked_hits"`
 	WaitMs  int64      `json:"wait_ms"`
 	Skipped []string   `json:"skipped,omitempty"`
+	IPIDs   []uint32   `json:"ip_ids_set,omitempty"` // identification values set through the hook, in order
 }
 
 var parkGate atomic.Value // chan struct{} or nil
@@ -262,7 +296,7 @@ func runScenario(k int, sc scenario) scnObs {
 	id := fmt.Sprintf("c14-%d", k)
 	var peers []net.IP
 	for i := range sc.Conns {
-		peers = append(peers, peerIP(i))
+		peers = append(peers, sc.peer(i))
 	}
 	h, err := lab.StartCanary(id, "direct", peers, false)
 	if err != nil {
@@ -291,7 +325,7 @@ func runScenario(k int, sc scenario) scnObs {
 			d := fr.DecodeTCPFrame(f)
 			// learn the server ISN from the SYN-ACK addressed to a connection
 			for i, c := range sc.Conns {
-				if len(d.Problems) > 0 || int(d.Dport) != c.Sport || int(d.Sport) != c.Dport || !d.IPDst.Equal(peerIP(c.Peer)) {
+				if len(d.Problems) > 0 || int(d.Dport) != c.Sport || int(d.Sport) != c.Dport || !d.IPDst.Equal(sc.peer(c.Peer)) {
 					continue
 				}
 				if d.Flags&(fr.SYN|fr.ACK) == fr.SYN|fr.ACK && !st[i].haveISN {
@@ -305,10 +339,24 @@ func runScenario(k int, sc scenario) scnObs {
 			}
 		}
 	}
+	var idTargets []uint32
+	idNext := 0
 	for step, ci := range sc.Order {
 		c := sc.Conns[ci]
 		s := &st[ci]
-		src := peerIP(c.Peer)
+		src := sc.peer(c.Peer)
+		if sc.Kind == "ipid-boundary" && step > 0 {
+			if idTargets == nil && len(ob.Frames) > 0 {
+				raw, _ := hex.DecodeString(ob.Frames[0].Hex)
+				idTargets = ipidTargets(raw)
+			}
+			if len(idTargets) > 0 && s.next >= 2 {
+				id := idTargets[idNext%len(idTargets)]
+				idNext++
+				h.C.VerifSetIPID(id)
+				ob.IPIDs = append(ob.IPIDs, id)
+			}
+		}
 		t := fr.TCP{Sport: uint16(c.Sport), Dport: uint16(c.Dport), Off: -1}
 		var data []byte
 		switch {
@@ -403,6 +451,47 @@ func runScenario(k int, sc scenario) scnObs {
 	ob.Events = collect()
 	ob.WaitMs = time.Since(t0).Milliseconds()
 	return ob
+}
+
+// ipidTargets takes an emitted frame and returns the IPv4 identification values at which the one's complement
+// sum of a 40-byte reply header of the same connection needs a second carry fold or crosses a carry boundary,
+// each with its predecessors (a step can emit two frames with consecutive identifications).
+func ipidTargets(frame []byte) []uint32 {
+	if len(frame) < 34 {
+		return nil
+	}
+	ip := append([]byte(nil), frame[14:34]...)
+	ip[2], ip[3] = 0, 40 // total length of a bare ACK / FIN
+	ip[4], ip[5] = 0, 0  // identification
+	ip[10], ip[11] = 0, 0
+	var s0 uint32
+	for i := 0; i < 20; i += 2 {
+		s0 += uint32(ip[i])<<8 | uint32(ip[i+1])
+	}
+	seen := map[uint32]bool{}
+	var out []uint32
+	add := func(x int) {
+		for d := -2; d <= 0; d++ {
+			v := uint32((x + d) & 0xffff)
+			if !seen[v] {
+				seen[v] = true
+				out = append(out, v)
+			}
+		}
+	}
+	for x := 0; x < 65536; x++ {
+		t := s0 + uint32(x)
+		if (t>>16)+(t&0xffff) > 0xffff { // one fold is not enough
+			add(x)
+		}
+		if t&0xffff == 0 || t&0xffff == 0xffff { // carry boundary of the unfolded sum
+			add(x)
+		}
+	}
+	for _, x := range []int{0, 1, 0x7fff, 0x8000, 0xffff} {
+		add(x)
+	}
+	return out
 }
 
 type params struct {
@@ -534,7 +623,7 @@ func (prop) Judge(b core.Batch, recs []core.Rec, exits []core.Exit) []core.Resul
 		}
 		belongs := func(d *fr.Decoded) int {
 			for i, c := range sc.Conns {
-				if int(d.Dport) == c.Sport && int(d.Sport) == c.Dport && d.IPDst != nil && d.IPDst.Equal(peerIP(c.Peer)) {
+				if int(d.Dport) == c.Sport && int(d.Sport) == c.Dport && d.IPDst != nil && d.IPDst.Equal(sc.peer(c.Peer)) {
 					return i
 				}
 			}
@@ -584,7 +673,7 @@ func (prop) Judge(b core.Batch, recs []core.Rec, exits []core.Exit) []core.Resul
 					}
 				}
 				if !ok {
-					fail("syn-not-answered|"+portClass(c), fmt.Sprintf("SYN %s:%d -> :%d (ISN %d) got no SYN-ACK", peerIP(c.Peer), c.Sport, c.Dport, c.ISN))
+					fail("syn-not-answered|"+portClass(c), fmt.Sprintf("SYN %s:%d -> :%d (ISN %d) got no SYN-ACK", sc.peer(c.Peer), c.Sport, c.Dport, c.ISN))
 				}
 			case s.next == 1: // ACK of the handshake
 			case s.next-2 < len(c.Segs):
@@ -663,7 +752,7 @@ func (prop) Judge(b core.Batch, recs []core.Rec, exits []core.Exit) []core.Resul
 			var ev *evObs
 			for i := range ob.Events {
 				e := &ob.Events[i]
-				if e.SrcIP == peerIP(c.Peer).String() && e.SrcPort == c.Sport && e.DstPort == c.Dport {
+				if e.SrcIP == sc.peer(c.Peer).String() && e.SrcPort == c.Sport && e.DstPort == c.Dport {
 					ev = e
 					break
 				}
@@ -673,7 +762,7 @@ func (prop) Judge(b core.Batch, recs []core.Rec, exits []core.Exit) []core.Resul
 				if c.HTTP && !bytes.HasSuffix(pl, []byte("\r\n\r\n")) {
 					cls = "payload-is-not-a-complete-http-request"
 				}
-				fail("no-event|"+portClass(c)+"|"+cls, fmt.Sprintf("connection %s:%d -> :%d (%d bytes, push after %d) was not reported in any event (events: %d)", peerIP(c.Peer), c.Sport, c.Dport, total, firstPush, len(ob.Events)))
+				fail("no-event|"+portClass(c)+"|"+cls, fmt.Sprintf("connection %s:%d -> :%d (%d bytes, push after %d) was not reported in any event (events: %d)", sc.peer(c.Peer), c.Sport, c.Dport, total, firstPush, len(ob.Events)))
 				continue
 			}
 			if ev.DstIP != "127.0.0.1" {
